@@ -249,7 +249,7 @@ def lifted_guards(fn, skip=()):
             if not covers_all_paths(callee, g, exits=cs):
                 continue
             lg = Guard(fn, pg.block, g.cond, g.label, pg.tgt, 'reject', g.kinds, g.span, pg.others)
-            lg.pred = subst_args(g.pred, call[2])
+            lg.pred = subst_args(expand(callee, g.pred), call[2])
             lg.lifted_from = callee.id
             out.append(lg)
     return out
